@@ -11,6 +11,7 @@ REGISTRY = {
     'C11': ['wait', 'event', 'base_core'],
     'C12': ['core', 'handles'],
     'C16': ['event', 'base_core'],
+    'C17': ['fault_sched'],
     'C18': ['fiber_locks'],
     'C19': ['atomic'],
 }
@@ -135,6 +136,17 @@ CLAIMS = {
         'note': 'SC atomics; documented usage rules (Add only while non-zero, Reset at quiescence) are preconditions; the coroutine awaiters '
                 'of the event are in unit coro when registered; the variadic / iterator `range` lambdas are abstracted by a contract.',
         'design': 'DESIGN.md 6 C16, 5.B, 5.E',
+    },
+    'C17': {
+        'text': 'Relational (2-run) contracts by self-composition: GetRandNumber, Injector::Reset / NeedInject / MaybeInject, ShouldFailAtomicWeak, the position choice '
+                'of PollRandomElementFromList and TickTime are each run on two copies of the declared decision state S (seed, engine position, random count, injector '
+                'count / pause, the configuration values, virtual time) with clocks, random_device, addresses and thread ids independent, and must take the same '
+                'decision and reach the same S. Functional contracts: engine invariant (random count == draws since seeding), SetSeed re-creates position 0, '
+                'GetRandCount, the restore lemma ForwardToRandCount (loop invariant, any n), Get/SetState, ShouldFailAtomicWeak, TickTime, AdvanceTime.',
+        'note': 'mt19937_64 is an opaque deterministic stream (uninterpreted function of seed and position), % is an uninterpreted function with its bound; std::map '
+                'ordering and context switching trusted; BiList::GetElement is checked bounded on real memory (N<=6/9); RunLoop / WakeUpNeeded / Sleep (std::map) '
+                'are not under contract. Replay: FIBER build of the tree under check.',
+        'design': 'DESIGN.md 6 C17, 5.G',
     },
     'C18': {
         'text': 'Holder-count contracts with interference only at the fiber suspension points (FiberQueue::Wait both forms, Suspend, InjectFault), where the '
